@@ -128,7 +128,8 @@ def check_stream_side(ctx):
     etsd = ctx.classes.get(REAL, "ExtendedToStreamDecorator")
     Q = f"{REAL}:ExtendedToStreamDecorator"
     MIME = ("const", 'text/plain; charset="utf8"')
-    spec = [("first", (C1, C2)), ("empty", ()), ("last", (C3,))]
+    # ("framed": a detail whose first chunk is the very object its last chunk is -- a separator written before and after the body)
+    spec = [("first", (C1, C2)), ("empty", ()), ("framed", (C1, C2, C1)), ("last", (C3,))]
     for outcome in OUTCOMES:
         d, runs = _drive(ctx, "stream", outcome, spec if outcome != "addSkip" else None, reason=("const", "not today"))
         chunks, fields, tables = set(), set(), set()
@@ -159,7 +160,8 @@ def check_stream_side(ctx):
                     fields.add(f"the final event carries test_tags={fin.get('test_tags', 'nothing')!r}; expected the tags current at the outcome (run-tag, test-tag)")
                 if fin.get("timestamp") != T_END:
                     fields.add(f"the final event carries timestamp={fin.get('timestamp', 'nothing')!r}; expected the time supplied before the outcome")
-            want_files = [("first", C1, False), ("first", C2, True), ("empty", ("const", b""), True), ("last", C3, True)] if outcome != "addSkip" else [("reason", ("const", b"not today"), True)]
+            want_files = [("first", C1, False), ("first", C2, True), ("empty", ("const", b""), True), ("framed", C1, False), ("framed", C2, False), ("framed", C1, True),
+                          ("last", C3, True)] if outcome != "addSkip" else [("reason", ("const", b"not today"), True)]
             got_files = [(e.get("file_name")[1] if isinstance(e.get("file_name"), tuple) else e.get("file_name"), e.get("file_bytes"), e.get("eof") == TRUE) for e in files]
             if got_files != want_files:
                 chunks.add(f"the file events are {got_files}; expected {want_files} (every chunk once, in order; eof exactly on the last chunk of each detail; an empty detail as one empty eof chunk)")
